@@ -95,8 +95,8 @@ func rebuildUpdateCommand() {
 func performUpdate(processAll bool, ctx *processors.Context) {
 	if processAll {
 		err := filepath.WalkDir(ctx.RootContext().AssemblyDir(), func(filePath string, dirEntry fs.DirEntry, err error) error {
-			if errors.Is(err, fs.ErrNotExist) {
-				// fail
+			if err != nil {
+				// fail: a directory that cannot be listed must not pass for an empty one
 				return err
 			}
 
